@@ -24,7 +24,7 @@ import (
 
 func init() { register("C03", runC03) }
 
-var c03Names = []string{"a", "b", "c", "d", "e", "f"} // sorted; interned as 1..; "__key" is 0
+var c03Names = []string{"$", "a", "b", "c", "d", "e", "f"} // sorted; interned as 1..; "__key" is 0; "$" is an ordinary field name in an object
 
 type c03Intern struct {
 	byText map[string]int // JSON text of a scalar -> token
@@ -114,6 +114,38 @@ func isArrayDelta(m map[string]interface{}) bool {
 	return len(m) > 0
 }
 
+// c03ExpandIdx: the reorder list under "$" with its runs [start, count] expanded
+func c03ExpandIdx(v interface{}) []int {
+	num := func(x interface{}) (int, bool) {
+		switch x := x.(type) {
+		case float64:
+			return int(x), true
+		case json.Number:
+			n, err := x.Int64()
+			return int(n), err == nil
+		case int64:
+			return int(x), true
+		case int:
+			return x, true
+		}
+		return 0, false
+	}
+	var out []int
+	l, _ := v.([]interface{})
+	for _, e := range l {
+		if n, ok := num(e); ok {
+			out = append(out, n)
+		} else if p, ok := e.([]interface{}); ok && len(p) == 2 {
+			a, _ := num(p[0])
+			c, _ := num(p[1])
+			for k := 0; k < c; k++ {
+				out = append(out, a+k)
+			}
+		}
+	}
+	return out
+}
+
 // encRawIdx encodes the value under "$": numbers stay raw.
 func encRawIdx(v interface{}) interface{} {
 	switch v := v.(type) {
@@ -133,8 +165,12 @@ func encRawIdx(v interface{}) interface{} {
 	}
 }
 
-// encDelta encodes a JSON-decoded delta in the J wire form.
-func (in *c03Intern) encDelta(v interface{}) interface{} {
+// encDelta encodes a JSON-decoded delta in the J wire form. A nested delta is an array delta or an object delta
+// according to the old value it applies to (an object may have a field named "$" or "0"); where the old value
+// is not at hand the shape decides.
+func (in *c03Intern) encDelta(v interface{}) interface{} { return in.encDeltaCtx(v, nil, false) }
+
+func (in *c03Intern) encDeltaCtx(v interface{}, old interface{}, known bool) interface{} {
 	m, ok := v.(map[string]interface{})
 	if !ok {
 		return in.encData(v) // scalar replacement, [wrapped], []
@@ -144,13 +180,43 @@ func (in *c03Intern) encDelta(v interface{}) interface{} {
 		v interface{}
 	}
 	var kvs []kv
-	if isArrayDelta(m) {
+	oldMap, oldIsMap := old.(map[string]interface{})
+	arrayDelta := isArrayDelta(m)
+	if known {
+		_, oldIsArr := old.([]interface{})
+		arrayDelta = oldIsArr
+	}
+	if known && oldIsMap {
+		for k, x := range m {
+			sub, has := oldMap[k]
+			kvs = append(kvs, kv{in.nameKey(k), in.encDeltaCtx(x, sub, has)})
+		}
+	} else if arrayDelta {
+		oldArr, _ := old.([]interface{})
+		var idx []int
+		reordered := false
+		if r, ok := m["$"]; ok {
+			reordered = true
+			idx = c03ExpandIdx(r)
+		}
 		for k, x := range m {
 			if k == "$" {
 				kvs = append(kvs, kv{0, encRawIdx(x)})
 			} else {
 				i, _ := strconv.Atoi(k)
-				kvs = append(kvs, kv{i + 1, in.encDelta(x)})
+				// the element delta applies to the old element that the reorder list puts at position i
+				j := i
+				if reordered {
+					j = -1
+					if i < len(idx) {
+						j = idx[i]
+					}
+				}
+				if known && j >= 0 && j < len(oldArr) {
+					kvs = append(kvs, kv{i + 1, in.encDeltaCtx(x, oldArr[j], true)})
+				} else {
+					kvs = append(kvs, kv{i + 1, in.encDelta(x)})
+				}
 			}
 		}
 	} else {
@@ -253,6 +319,9 @@ func (g *c03Gen) array(depth int) []interface{} {
 			a = append(a, g.value(depth))
 		}
 	}
+	if g.r.Chance(0.1) {
+		return a[:g.r.Intn(len(a)+1)] // spare capacity holding further elements
+	}
 	return a
 }
 
@@ -298,6 +367,9 @@ func (g *c03Gen) mutate(v interface{}, depth int) interface{} {
 	case []interface{}:
 		if g.r.Chance(0.15) {
 			return v
+		}
+		if g.r.Chance(0.08) {
+			return v[:g.r.Intn(cap(v)+1)] // a re-slice of the old array: same backing array, other length
 		}
 		a := append([]interface{}(nil), v...)
 		for i := range a {
@@ -474,7 +546,7 @@ func c03One(c *Ctx, m *Model, cs c03Case, js *[]c03JSJob) {
 	}
 	var implDeltaEnc interface{}
 	if implDelta != nil {
-		implDeltaEnc = map[string]interface{}{"some": in.encDelta(wire)}
+		implDeltaEnc = map[string]interface{}{"some": in.encDeltaCtx(wire, oldCopy, true)}
 	}
 	if Canon(implDeltaEnc) != Canon(resp["delta"]) {
 		rep.Fail("impl_ne_model", kf, cs, map[string]interface{}{"what": "delta differs from model", "impl": implDeltaEnc, "model": resp["delta"], "delta": wire})
